@@ -21,6 +21,10 @@ def run_layout_mc(ck, sizing_only=False):
         ck.tlc("LayoutWR", cfg, env={"VF_OUT": out}, timeout=1200)
         if not ck.quick:
             ck.tlc("LayoutWR", "MC_LayoutWR.hist2.cfg", timeout=1200)
+    # unbounded, machine-checked (TLAPS): one Horner step p -> p*s + c is bounded and injective for EVERY extent, hence (by
+    # induction on N) row-major is a bijection onto 0..Prod(s)-1 for all N and all extents; closed forms for N = 2, 3; the
+    # per-level digit steps of the Morton (N = 2, 3) and Hilbert curves are instances of the same step
+    ck.tlaps("LayoutProofs", [])
     ck.bound("layout_extent_bounds_per_dim", [12, 6, 4, 3] if ck.quick else [64, 12, 6, 4])
     return out
 
